@@ -166,7 +166,7 @@ func (s *reportSim) spawnWarrior(wi int, startOffset Address) error {
 	w.state = WarriorAlive
 	s.warriorLivingCount += 1
 
-	s.Report(Report{Type: WarriorSpawn, WarriorIndex: w.index, Address: startOffset})
+	s.Report(Report{Type: WarriorSpawn, WarriorIndex: w.index, Address: startOffset % s.m})
 
 	return nil
 }
